@@ -455,6 +455,8 @@ def run_one(pid, report_pid, tier, seed, replay_payload):
             "case": cases[n], "oracle": oracle[n],
             "impl": {p: impl[p].get(n) for p in profiles}, "model": model.get(n),
             "all_failing_cases": [cases[m] for _, m in violations[:50]],
+            # a theorem that no longer builds for the regenerated constants / tables is named beside the failing input
+            **({"proof_failures": [x[-1500:] for x in pr["failures"]]} if pr["failures"] else {}),
             "replay_cmd": f"./check.py {report_pid} --replay <this file>",
         })
         out_lines.append(f"VIOLATION property={report_pid} replay={path}")
